@@ -118,7 +118,9 @@ def phase2(work, nworkers):
         sh(f"mkdir -p {snap} && rsync -a --exclude .git --exclude replays --exclude .work --exclude seeded /verif/ {snap}/", "/")
     checks = [c["property_id"] for c in json.load(open("/verif/MANIFEST.json"))["checks"]]
     surv = [json.loads(l) for l in open(os.path.join(work, "phase1.jsonl"))]
-    surv = [m for m in surv if m["status"] == "survived"]
+    # files no property speaks about (the compile / help sub-commands, the debug switches)
+    skip = ("cmd/commands/compile.go", "cmd/commands/fallback.go", "cmd/commands/help.go", "internal/config/config.go")
+    surv = [m for m in surv if m["status"] == "survived" and m["file"] not in skip]
     out = os.path.join(work, "phase2.jsonl")
     done = set()
     if os.path.exists(out):
